@@ -167,6 +167,12 @@ def run_batch(H, variant, tag):
         it.ctx.oblige(f"inv_init.first_s.{tag}", first0 == stride * nb0, "inv_init")
         it.ctx.oblige(f"inv_init.file_position.{tag}", term(fid.pos) == pos_of(first0), "inv_init", "worker seeks to the position of its first batch")
         it.ctx.oblige(f"inv_init.start_batch.{tag}", z3.And(nb0 >= 0, z3.Implies(y["ichunk"] == 0, nb0 == 0)), "inv_init")
+        Xp = y["ichunk"] * y["CHUNK"]
+        it.ctx.oblige(f"inv_init.start_batch_formula.{tag}", z3.And(nb0 * NB >= Xp, (nb0 - 1) * NB < Xp), "inv_init",
+                      "the worker's first batch is ceil(i_chunk*CHUNK_SIZE / NBATCH): the quantity the no-gap lemma (worker_arithmetic:workers.no_gap) is stated about")
+        max_s_code = term(fenv.vars["max_s"])
+        it.ctx.oblige(f"inv_init.boundary_formula.{tag}", max_s_code == z3.If(y["ichunk"] == y["nchunk"] - 1, ns, (y["ichunk"] + 1) * y["CHUNK"]), "inv_init",
+                      "the worker's boundary is (i_chunk+1)*CHUNK_SIZE, the end of the recording for the last worker")
         if variant.get("compute_rms", True):
             aid = files_of(it, y["rms"])[-1]
             tid = files_of(it, y["time"])[-1]
